@@ -78,4 +78,8 @@ CLAIMED['C16'] = ('DESIGN.md 4/C16', 'save_signal -> every loader entry point ex
     'code and file system run on sentinel doubles, the symbolic meaning is recovered on read-back (value tokens within half '
     'a unit of the last digit the CURRENT source writes; dt text re-evaluated positionally over symbolic digits), and z3 '
     'decides npts, dt to 4 decimals, values to 6 decimals, label and returned type.')
+CLAIMED['C05'] = ('DESIGN.md 4/C05', 'Every mutator applied to an object built from (or reset to) a symbolic caller array: the caller\'s '
+    'array and the object are compared element-term by element-term before/after (in-place writes on symbolic arrays are '
+    'visible whatever the values), values/npts/time invariants after each operation; 40 array-level analysis functions '
+    'shown to leave their symbolic inputs untouched and to repeat their result on every explored path.')
 NOT_APPLICABLE = {}
